@@ -1,4 +1,5 @@
 import Clikit.Model.Run
+import Clikit.Lemmas.App
 /-!
 # C04 - a run always ends in a valid exit status and never leaks a handler failure
 
@@ -280,5 +281,158 @@ example : (fun _ => false : Exc → Bool) boom = false ∧ boom.keyboardInterrup
 /-- `handler_once`, right to left: resolution succeeded and the listener passed, so exactly one call -/
 example : (run false (.ok ()) [.pass] (.raise boom) (fun _ => true)).handlerCalls = 1 :=
   (handler_once false (.ok ()) [.pass] (.raise boom) (fun _ => true)).2.mpr ⟨rfl, rfl⟩
+
+/-! ## End to end: the composed model of `ConsoleApplication.run` (`Model/App.lean`)
+
+`App.runApp` composes this run model with the switches (C09), the resolver (C03), the parser
+(C01/C02) and the help target (C13) in the order of the code; it is compared with the real run of
+the default application on every generated case of C09 (driver entry `c09.app_run`).  The theorems
+hold for ALL command trees, token lists, conversion tables and handler behaviours. -/
+
+/-- the status/escape shape of every `run`: a status is at most 255; there is none exactly when an
+exception escaped; an escaped exception is one whose report failed to render -/
+theorem run_shape (debug : Bool) (resolved : Except Exc Unit) (ls : List Listener) (o : Outcome)
+    (render : Exc → Bool) :
+    let r := run debug resolved ls o render
+    (∀ s, r.status = some s → s ≤ 255) ∧ (r.status = none ↔ r.escaped ≠ none) ∧
+    (∀ e, r.escaped = some e → render e = false ∧ e.keyboardInterrupt = false) := by
+  refine ⟨?_, ?_, fun e he => escape_only_by_render debug resolved ls o render e he⟩
+  · intro s hs
+    simp only [run] at hs
+    cases ha : (attempt debug resolved ls o).1 with
+    | ok s' =>
+      simp only [ha, conclude, Option.some.injEq] at hs
+      subst hs
+      exact attempt_status_le _ _ _ _ _ ha
+    | error e =>
+      simp only [ha, conclude] at hs
+      split at hs
+      · simp at hs; omega
+      · split at hs
+        · simp at hs; omega
+        · simp at hs
+  · simp only [run]
+    cases ha : (attempt debug resolved ls o).1 with
+    | ok s' => simp [conclude]
+    | error e =>
+      simp only [conclude]
+      split
+      · simp
+      · split <;> simp
+
+
+section AppRun
+open Clikit.App Clikit.Parser Clikit.Resolver Clikit.Switches Clikit.Help
+
+/-- **The selected handler runs, exactly once, with exactly the parsed args**: no help switch, the
+resolver selects `(path, args)`, the args do not have the version option set and the command is not
+the `help` command (whose handler is the library's `HelpTextHandler`): the handler of `path` is
+called once with `args`, no other handler is called, and the status is the one the run model gives
+for its outcome - in particular 0 for a false-y result, the clamped integer otherwise, 1 when it raises
+and the report renders. -/
+theorem app_runs_selected_handler (env : Env) (cv : Conv) (app : List Cmd) (hs : Handlers) (toks : List Str)
+    (path : List Str) (a : Args) (hsw : helpSwitch toks = false) (hr : resolve cv app toks = .ok (path, a))
+    (hv : versionSet a = false) (hp : isHelpPath path = false) :
+    (runApp env cv app hs toks).invoked = [(path, a)] ∧
+    (∀ p ∈ (runApp env cv app hs toks).invoked, p = (path, a)) ∧
+    (runApp env cv app hs toks).what = .ran path a (hs path a) ∧
+    (runApp env cv app hs toks).status =
+      (run (ioDebug (createIO toks env.debug)) (.ok ()) [] (hs path a) env.render).status ∧
+    (∀ v s, hs path a = .ret v → normalize v = .ok s → (runApp env cv app hs toks).status = some s) ∧
+    (∀ e, hs path a = .raise e → env.render e = true → (runApp env cv app hs toks).status = some 1) := by
+  have hrc : resolveCommand cv app toks = .ok (path, a) := by rw [resolveCommand_noswitch cv app toks hsw, hr]
+  have hinv : (runApp env cv app hs toks).invoked = [(path, a)] := by
+    rw [runApp_ok env cv app hs toks _ _ hrc]
+    simp only [hp, hv, run_pass_calls, Bool.false_eq_true, if_false, List.replicate_one]
+  have hst : (runApp env cv app hs toks).status =
+      (run (ioDebug (createIO toks env.debug)) (.ok ()) [] (hs path a) env.render).status := by
+    rw [runApp_ok env cv app hs toks _ _ hrc]
+    simp only [hv, run_pass, handlerOutcome, hp, Bool.false_eq_true, if_false]
+  refine ⟨hinv, ?_, ?_, hst, ?_, ?_⟩
+  · rw [hinv]; intro p hm; exact List.mem_singleton.mp hm
+  · rw [runApp_ok env cv app hs toks _ _ hrc]
+    simp only [whatOf, hv, hp, Bool.false_eq_true, if_false]
+  · intro v s hv' hn
+    rw [hst, hv']
+    simp [run, attempt, handle, doHandle, dispatchPre, hn, conclude]
+  · intro e he hre
+    rw [hst, he]
+    simp only [run, attempt, handle, doHandle, dispatchPre]
+    cases hk : e.keyboardInterrupt <;> cases hd : ioDebug (createIO toks env.debug) <;> simp [conclude, hk, hre]
+
+/-- **At most one handler of the application is invoked in a run**, and it is the one of the command
+`resolve_command` selected, called with the args it parsed -/
+theorem app_at_most_one_handler (env : Env) (cv : Conv) (app : List Cmd) (hs : Handlers) (toks : List Str) :
+    (runApp env cv app hs toks).invoked.length ≤ 1 ∧
+    ∀ p ∈ (runApp env cv app hs toks).invoked, resolveCommand cv app toks = .ok p := by
+  cases hrc : resolveCommand cv app toks with
+  | error e =>
+    rw [runApp_error env cv app hs toks _ hrc]
+    exact ⟨Nat.zero_le _, fun p hm => by cases hm⟩
+  | ok p =>
+    obtain ⟨path, a⟩ := p
+    rw [runApp_ok env cv app hs toks _ _ hrc]
+    simp only
+    split
+    · exact ⟨Nat.zero_le _, fun p hm => by cases hm⟩
+    · refine ⟨?_, fun p hm => by rw [(List.mem_replicate.mp hm).2]⟩
+      rw [List.length_replicate]
+      exact (handler_once _ (.ok ()) _ _ _).1
+
+/-- **The exit status of every run is an integer in 0..255** (exception catching on): whenever
+`run()` returns, it returns a status of at most 255; it does not return exactly when an exception
+escaped, and the only exception that can escape is one whose error report failed to render (not a
+`KeyboardInterrupt`); with a renderer that works there is always a status. -/
+theorem app_status_range (env : Env) (cv : Conv) (app : List Cmd) (hs : Handlers) (toks : List Str) :
+    (∀ s, (runApp env cv app hs toks).status = some s → s ≤ 255) ∧
+    ((runApp env cv app hs toks).status = none ↔ (runApp env cv app hs toks).escaped ≠ none) ∧
+    (∀ e, (runApp env cv app hs toks).escaped = some e → env.render e = false ∧ e.keyboardInterrupt = false) ∧
+    ((∀ e, env.render e = true) → ∃ s, (runApp env cv app hs toks).status = some s ∧ s ≤ 255) := by
+  have key : ∃ (d : Bool) (rs : Except Exc Unit) (ls : List Listener) (o : Outcome),
+      (runApp env cv app hs toks).status = (run d rs ls o env.render).status ∧
+      (runApp env cv app hs toks).escaped = (run d rs ls o env.render).escaped := by
+    cases hrc : resolveCommand cv app toks with
+    | error e => rw [runApp_error env cv app hs toks _ hrc]; exact ⟨_, _, _, _, rfl, rfl⟩
+    | ok p => obtain ⟨path, a⟩ := p; rw [runApp_ok env cv app hs toks _ _ hrc]; exact ⟨_, _, _, _, rfl, rfl⟩
+  obtain ⟨d, rs, ls, o, h1, h2⟩ := key
+  have hsh := run_shape d rs ls o env.render
+  rw [h1, h2]
+  refine ⟨hsh.1, hsh.2.1, hsh.2.2, fun hr => ?_⟩
+  obtain ⟨_, s, hs1, hs2, _⟩ := run_contained d rs ls o env.render hr
+  exact ⟨s, hs1, hs2⟩
+
+/-! Non-vacuity on the small application `App.Demo` -/
+section Demo
+open Clikit.App.Demo
+
+/-- `server add x y`: the handler of `server add` is called once with the two names and returns 3 -/
+example : (runApp env cv app hs [S "server", S "add", S "x", S "y"]).invoked =
+      [([S "server", S "add"], addArgs ["x", "y"] [])] ∧
+    (runApp env cv app hs [S "server", S "add", S "x", S "y"]).status = some 3 :=
+  have h := app_runs_selected_handler env cv app hs [S "server", S "add", S "x", S "y"] [S "server", S "add"]
+    (addArgs ["x", "y"] []) (by decide) (by decide +kernel) (by decide) (by decide)
+  ⟨h.1, h.2.2.2.2.1 v3 3 (by decide) (by decide)⟩
+
+/-- `server`: its handler raises, the report renders: status 1, called once -/
+example : (runApp env cv app hs [S "server"]).status = some 1 ∧
+    (runApp env cv app hs [S "server"]).invoked = [([S "server"], { args := [], opts := [] })] :=
+  have h := app_runs_selected_handler env cv app hs [S "server"] [S "server"] { args := [], opts := [] }
+    (by decide) (by decide +kernel) (by decide) (by decide)
+  ⟨h.2.2.2.2.2 boom (by decide) rfl, h.1⟩
+
+example : (runApp env cv app hs [S "nope", S "x"]).invoked.length ≤ 1 :=
+  (app_at_most_one_handler env cv app hs _).1
+example : ∃ s, (runApp env cv app hs [S "nope", S "x"]).status = some s ∧ s ≤ 255 :=
+  (app_status_range env cv app hs _).2.2.2 (fun _ => rfl)
+/-- an unknown command: reported, status 1, no handler; with a failing renderer the exception escapes -/
+example : (runApp env cv app hs [S "nope", S "x"]).status = some 1 ∧
+    (runApp env cv app hs [S "nope", S "x"]).what = .error .cannotResolve ∧
+    (runApp env cv app hs [S "nope", S "x"]).invoked = [] := by decide +kernel
+example : (runApp { debug := false, render := fun _ => false } cv app hs [S "nope", S "x"]).status = none ∧
+    (runApp { debug := false, render := fun _ => false } cv app hs [S "nope", S "x"]).escaped =
+      some (excOf .cannotResolve) := by decide +kernel
+
+end Demo
+end AppRun
 
 end Clikit.Props.C04
